@@ -52,9 +52,10 @@ func vIndexCache() *frac.IndexCache {
 // files that form it, or all of its files are gone.
 func VerifStartup() {
 	fs := frac.VerifFS
-	fs.Files, fs.Ops, fs.CrashAt, fs.Opened, fs.SealedDocs = map[string]bool{}, 0, 0, "", "" // harness state is process-global: start clean
+	fs.Files, fs.Unsynced, fs.Ops, fs.CrashAt, fs.FailAt, fs.Failed, fs.Opened, fs.SealedDocs = map[string]bool{}, map[string]bool{}, 0, 0, 0, "", "", "" // harness state is process-global: start clean
 	vServedActive, vServedSealed = nil, nil
 	scenario := rt.Choose(4)
+	faults := false
 	var op func()
 	switch scenario {
 	case 0: // creation of an active fraction
@@ -72,9 +73,16 @@ func VerifStartup() {
 		a := fp.NewActive(vBase)
 		frac.VerifMarkNonEmpty(a)
 		pf := &proxyFrac{active: a, fp: fp}
+		faults = true
 		op = func() {
 			_, err := pf.Seal(frac.SealParams{})
-			rt.Assert(err == nil, "sealing succeeds on a healthy file system")
+			if fs.Failed != "" && fs.Failed != "remove" {
+				// (FracManager.seal ends the process on this error: what follows is a restart)
+				rt.Assert(err != nil, "a failing create, sync or rename fails the sealing")
+				rt.Reach("seal-failed")
+				return
+			}
+			rt.Assert(err == nil, "sealing succeeds when no operation of frac.Seal fails")
 			rt.Reach("sealed-and-released")
 		}
 	default: // deletion of a sealed fraction, with plain or sorted docs
@@ -92,6 +100,10 @@ func VerifStartup() {
 	fs.Ops = 0
 	fs.CrashAt = rt.NondetInt() // the crash point is a solver variable: every operation forks on "dies here"
 	rt.Assume(rt.And(1 <= fs.CrashAt, fs.CrashAt <= rt.Param("MAXOPS")))
+	if faults { // sealing: additionally one operation (create, fsync, rename, remove) may fail with an I/O error
+		fs.FailAt = rt.NondetInt()
+		rt.Assume(rt.And(0 <= fs.FailAt, fs.FailAt <= rt.Param("MAXOPS")))
+	}
 	crashed := vRun(op)
 	if !crashed {
 		rt.Assert(fs.Ops < fs.CrashAt, "no crash: the crash index lies beyond the last operation")
@@ -99,8 +111,12 @@ func VerifStartup() {
 	rt.Reach("crashed-or-done")
 	before := fs.List()
 
-	// restart
-	fs.CrashAt = 0
+	// restart: what was never fsynced did not survive
+	fs.CrashAt, fs.FailAt = 0, 0
+	torn := map[string]bool{}
+	for n := range fs.Unsynced {
+		torn[n] = true
+	}
 	l := NewLoader(&Config{DataDir: "/data"}, nil, NewSealedFracCache("/data/.frac-cache"))
 	_, _, err := l.load(context.Background())
 	rt.Assert(err == nil, "the store starts")
@@ -118,6 +134,7 @@ func VerifStartup() {
 		if has(".index") && (has(".docs") || has(".sdocs")) {
 			// which documents file will the served fraction read? (the real Sealed.openDocs prefers .docs)
 			rt.Assert(frac.VerifDocsFileOf(vBase) == vBase+fs.SealedDocs, "a sealed fraction reads the documents file its index was written for")
+			rt.Assert(!torn[vBase+".index"] && !torn[vBase+fs.SealedDocs], "a sealed fraction is served only from files that were fsynced before they were published")
 		}
 	}
 	if served == 0 {
